@@ -184,14 +184,14 @@ func genScenario(seed uint64, run int, tier string) *scenario {
 	sc := &scenario{Seed: seed, Run: run, Tier: tier, SetRO: -1, CloseRace: -1,
 		FaultWrite: [2]int{-1, 0}, FaultSync: [2]int{-1, 0}, FaultCreate: [2]int{-1, 0}}
 	// rotate through the classes so that every quick run covers all of them
-	classes := []string{"small", "big", "mixed", "compact", "txn", "close", "readonly", "fault", "nomerge", "puts", "big", "close", "putsfault"}
+	classes := []string{"small", "big", "mixed", "compact", "txn", "close", "readonly", "fault", "nomerge", "puts", "closeover", "close", "putsfault", "big"}
 	sc.Class = classes[run%len(classes)]
 	sizeClass := 0
 	switch sc.Class {
 	case "big":
 		sizeClass = 1
 		sc.WriteBuffer = 4 << 20
-	case "small", "close", "fault", "puts", "putsfault":
+	case "small", "close", "fault", "puts", "putsfault", "closeover":
 		sc.WriteBuffer = []int{2 << 10, 4 << 10, 8 << 10, 16 << 10}[r.Intn(4)]
 	default:
 		if r.Chance(1, 3) {
@@ -239,6 +239,10 @@ func genScenario(seed uint64, run int, tier string) *scenario {
 				c.Size = sc.WriteBuffer / []int{2, 4, 8, 16}[r.Intn(4)]
 			}
 		}
+		if sc.Class == "closeover" {
+			// overflow-prone sizes: most groups end with a hand-over, Close arrives in the middle
+			c.Size = r.Range(sc.WriteBuffer/4, sc.WriteBuffer/2)
+		}
 		if c.Size < 18*c.NRec+c.NRec {
 			c.Size = 19 * c.NRec
 		}
@@ -274,7 +278,7 @@ func genScenario(seed uint64, run int, tier string) *scenario {
 	case "mixed":
 		sc.NCompact = r.Intn(2)
 		sc.NTxn = r.Intn(2)
-	case "close":
+	case "close", "closeover":
 		sc.CloseRace = r.Range(1, total-1)
 	case "readonly":
 		sc.SetRO = r.Range(1, total-1)
@@ -298,6 +302,9 @@ func genScenario(seed uint64, run int, tier string) *scenario {
 		}
 	}
 	sc.YieldMode = r.Pick(1, 2, 3, 5, 3)
+	if sc.Class == "closeover" {
+		sc.YieldMode = 3 + r.Intn(2)
+	}
 	return sc
 }
 
@@ -562,7 +569,7 @@ func runScenario(sc *scenario) *runResult {
 		case <-time.After(20 * time.Second):
 			res.hang = "Close did not return after 20 s"
 		}
-	} else if sc.FaultWrite[0] < 0 && sc.FaultSync[0] < 0 && sc.FaultCreate[0] < 0 && sc.NTxn == 0 {
+	} else if sc.FaultWrite[0] < 0 && sc.FaultSync[0] < 0 && sc.FaultCreate[0] < 0 && sc.NTxn == 0 && !hasTxnPath(sc) {
 		// closed in the race: reopen the same storage and read what was recovered
 		if db2, err := leveldb.Open(js, o); err == nil {
 			res.contents, res.haveCont, res.reopened = readAll(db2), true, true
@@ -579,6 +586,17 @@ func runScenario(sc *scenario) *runResult {
 	}
 	res.injected = js.injWrite + js.injSync + js.injCreate
 	return res
+}
+
+func hasTxnPath(sc *scenario) bool {
+	for _, w := range sc.Writers {
+		for _, c := range w {
+			if c.TxnPath {
+				return true
+			}
+		}
+	}
+	return false
 }
 
 func readAll(db *leveldb.DB) map[string][]byte {
